@@ -306,7 +306,17 @@ class Scope:
             return self.elem_type(it.args[0])
         if isinstance(it, ast.Subscript) and isinstance(it.slice, ast.Slice):
             return self.elem_type(it.value)
+        if isinstance(it, ast.BoolOp):
+            for v in it.values:
+                t = self.elem_type(v)
+                if t is not None:
+                    return t
+            return None
         ty = self.type(it)
+        if isinstance(ty, tuple) and ty[0] == "union":
+            for t in ty[1]:
+                if isinstance(t, tuple) and t[0] in ("list", "set") and t[1] is not None:
+                    return t[1]
         if isinstance(ty, tuple) and ty[0] in ("list", "set"):
             return ty[1]
         if ty == "str":
